@@ -88,7 +88,10 @@ def _sample_weights(rng, n):
     sw = G.sig3(rng.uniform(0.2, 3.0, n), 3)
     if n >= 3 and rng.random() < 0.35:
         sw[rng.choice(n, int(rng.integers(1, max(2, n // 3 + 1))), replace=False)] = 0.0
-    return sw.tolist()
+    # (the datafit normalises by the weight sum: weights that sum to 1 or to far less than n
+    # separate it from a normalisation by the sample count)
+    scale = G.choice(rng, [1.0, 1.0 / max(float(sw.sum()), 1e-3), 0.05], p=[.5, .3, .2])
+    return G.sig3(sw * scale, 3).tolist()
 
 
 def _true(X):
